@@ -18,8 +18,12 @@ pub fn par_run<T: Send + Default, F: Fn(u64, &mut T) + Sync>(total: u64, chunk: 
     let rot = if nblocks > 0 { seed.wrapping_mul(0x9E3779B97F4A7C15) % nblocks } else { 0 };
     let n = nthreads();
     let locals: Vec<T> = std::thread::scope(|s| {
-        let hs: Vec<_> = (0..n).map(|_| {
-            s.spawn(|| {
+        let ncores = std::thread::available_parallelism().map(|n| n.get()).unwrap_or(1);
+        let hs: Vec<_> = (0..n).map(|ti| {
+            let (next, done, capped, f) = (&next, &done, &capped, &f);
+            s.spawn(move || {
+                // one core per worker: whatever the worker spawns (solver threads, example binaries) stays on that core
+                pin_current_thread(ti % ncores);
                 let mut local = T::default();
                 loop {
                     if let Some(d) = deadline { if Instant::now() > d { if next.load(SeqCst) < nblocks { capped.store(true, SeqCst); } break; } }
@@ -37,4 +41,13 @@ pub fn par_run<T: Send + Default, F: Fn(u64, &mut T) + Sync>(total: u64, chunk: 
         hs.into_iter().map(|h| h.join().expect("worker thread of the harness panicked")).collect()
     });
     ParResult { locals, done: done.load(SeqCst), total, capped: capped.load(SeqCst) }
+}
+
+extern "C" { fn sched_setaffinity(pid: i32, cpusetsize: usize, mask: *const u64) -> i32; }
+/// Pins the calling thread (and the threads it will spawn) to one core: in this kind of VM a thread hand-off across
+/// cores costs about a millisecond, on one core it is a plain context switch.
+pub fn pin_current_thread(core: usize) {
+    let mut mask = [0u64; 16];
+    mask[core / 64] |= 1 << (core % 64);
+    unsafe { sched_setaffinity(0, std::mem::size_of_val(&mask), mask.as_ptr()); }
 }
